@@ -293,6 +293,8 @@ def run_job(pid, job, tier, seed, hb, runner_exe, tag=""):
                 continue
             cid, obs = l.split("\t", 1)
             mobs = model.get(cid)
+            if mobs == "NOMODEL":          # oracle-only case (no executable model covers it): nothing to compare
+                continue
             if proj and mobs is not None and not mobs.startswith("MODEL-ERROR"):
                 # compare projected observables only (DESIGN 2.3): what this property is about
                 try:
